@@ -396,14 +396,14 @@ class HasObservables:
                 signal_types = [
                     signal_type,
                 ]
-            for signal_type in signal_types:
+            for st in signal_types:
                 with contextlib.suppress(KeyError):
                     remaining = []
-                    for ref in self.subscribers[name][signal_type]:
+                    for ref in self.subscribers[name][st]:
                         if subscriber := ref():  # noqa: SIM102
                             if subscriber != handler:
                                 remaining.append(ref)
-                    self.subscribers[name][signal_type] = remaining
+                    self.subscribers[name][st] = remaining
 
     def clear_all_subscriptions(self, name: str | All):
         """Clears all subscriptions for the observable <name>.
